@@ -9,6 +9,9 @@ use byteorder::BigEndian;
 use std::collections::HashMap;
 use std::net::SocketAddr;
 
+/// The whole response is a single datagram, which can be larger than the default receive size.
+const PACKET_SIZE: usize = 2048;
+
 struct GameSpy2 {
     socket: UdpSocket,
     retry_count: usize,
@@ -101,7 +104,7 @@ impl GameSpy2 {
         self.socket
             .send(&[0xFE, 0xFD, 0x00, 0x00, 0x00, 0x00, 0x01, 0xFF, 0xFF, 0xFF])?;
 
-        let received = self.socket.receive(None)?;
+        let received = self.socket.receive(Some(PACKET_SIZE))?;
 
         let mut buf = Buffer::<BigEndian>::new(&received);
         if buf.read::<u8>()? != 0 || buf.read::<u32>()? != 1 {
